@@ -1,4 +1,5 @@
 import Cuke.Model.Tracing
+import Cuke.Lemmas.TraceFrame
 /-!
 # C20 — Tracing logs are attributed to the scenario and step that emitted them
 Model: `Cuke.Tr` — the collector protocol and one `forward_logs` turn.
@@ -80,5 +81,62 @@ def c0 : Coll :=
 example : (turn c0).out =
     [.scen ⟨1, none, 80⟩ (some ⟨1, 0⟩) (.log 100), .scen ⟨1, none, 70⟩ none (.log 101), .scen ⟨1, none, 80⟩ (some ⟨1, 0⟩) (.log 102)] ∧
     (turn c0).logs = [] := by decide
+
+
+/-! ## The framing between writer side and reader side (byte-level contract)
+
+Model: `Cuke.Frame` (Cuke/Model/TraceFrame.lean) — `frame` is what `AppendScenarioMsg::format_event` writes,
+`unframe` is `CollectorWriter::write`. Tied to the code directly: the real `write` runs on generated buffers
+(family `trace.frame`) and must return and send exactly what `unframe` says. -/
+
+open Cuke.Frame in
+/-- **Round trip, any number of frames in one buffer.** If every frame's id is one `u64` can print and the
+    terminator occurs in no frame before its own terminator, `write` returns `Ok` and sends exactly the
+    `(id, text)` pairs that were framed, in order — none lost, none merged, none attributed to another
+    scenario. -/
+theorem frames_roundtrip (frames : List (Option Str × Str))
+    (hid : ∀ f ∈ frames, idOk f.1 = true) (hc : ∀ f ∈ frames, Clean f.1 f.2 = true) :
+    unframe (frames.flatMap (fun f => frame f.1 f.2)) = (frames.map (fun f => (f.1.map decVal, f.2)), true) := by
+  unfold unframe
+  have hflat : frames.flatMap (fun f => frame f.1 f.2) =
+      (frames.map (fun f => f.2 ++ suffixOf f.1)).flatMap (fun b => b ++ END) := by
+    simp [flatMap_map, frame]
+  rw [hflat, splitTerminator_frames END (by decide)]
+  · exact unframeAll_bodies frames hid
+  · intro b hb
+    simp only [mem_map] at hb
+    obtain ⟨f, hf, rfl⟩ := hb
+    have := hc f hf
+    simpa [Clean] using this
+
+open Cuke.Frame in
+/-- **… in particular for every text that does not contain the terminator.** No other text is ever lost or
+    mis-attributed: not one ending in `_`, `__`, `__unknown`, digits, a proper prefix of the terminator, or
+    containing `__unknown` / `__<digits>` anywhere (the defect behind the repaired finding F-C20a). -/
+theorem frames_roundtrip_of_texts (frames : List (Option Str × Str))
+    (hid : ∀ f ∈ frames, idOk f.1 = true) (ht : ∀ f ∈ frames, contains END f.2 = false) :
+    unframe (frames.flatMap (fun f => frame f.1 f.2)) = (frames.map (fun f => (f.1.map decVal, f.2)), true) :=
+  frames_roundtrip frames hid (fun f hf => clean_of_text f.1 f.2 (hid f hf) (ht f hf))
+
+open Cuke.Frame in
+/-- The full statement — every text comes back — is FALSE of the code (finding F-C20b): a text containing the
+    terminator is cut there, the first piece has no separator, `write` fails and the log is lost. -/
+theorem framing_full_false :
+    ¬ ∀ (ids : Option Str) (text : Str), idOk ids = true → unframe (frame ids text) = ([(ids.map decVal, text)], true) := by
+  intro h
+  have := h none ['k', ' ', '_', '_', 'c', 'u', 'c', 'u', 'm', 'b', 'e', 'r', '_', '_', 's', 'c', 'e', 'n', 'a', 'r', 'i', 'o', ' ', 'z'] rfl
+  revert this
+  decide
+
+/-! non-vacuity of the round trip: two frames in one buffer, one with an id, one without; texts ending in `_`,
+    containing `__unknown` and `__7` -/
+example : Cuke.Frame.unframe
+    (Cuke.Frame.frame (some ['4', '2']) ['a', '_', '_', 'u', 'n', 'k', 'n', 'o', 'w', 'n', ' ', '_'] ++
+     Cuke.Frame.frame none ['x', '_', '_', '7']) =
+    ([(some 42, ['a', '_', '_', 'u', 'n', 'k', 'n', 'o', 'w', 'n', ' ', '_']), (none, ['x', '_', '_', '7'])], true) := by decide
+example : Cuke.Frame.Clean (some ['4', '2']) ['a', '_', '_', 'u', 'n', 'k', 'n', 'o', 'w', 'n', ' ', '_'] = true ∧
+    Cuke.Frame.idOk (some ['4', '2']) = true := by decide
+example : String.ofList Cuke.Frame.END = "__cucumber__scenario" ∧ String.ofList Cuke.Frame.SEP = "__" ∧
+    String.ofList Cuke.Frame.NOID = "__unknown" := by decide
 
 end Cuke.C20
